@@ -1,0 +1,19 @@
+//go:build verif
+
+package ocidir
+
+// Contracts checked by /verif (govc). Comment-only file; not part of normal builds.
+
+// C06 (OCI layout): deleting a tag removes every index entry that carries the tag. The index
+// handed to writeIndex by tagDelete contains no entry whose ref.name annotation is the tag.
+//@ callsite (*OCIDir).writeIndex(r, index, locked)
+//@   prop C06
+//@   name writeIndex/tagDelete
+//@   in ~/scheme/ocidir
+//@   infunc \)\.tagDelete$
+//@   requires tag-absent: forall(k, 0, len(index.Manifests), index.Manifests[k].Annotations["org.opencontainers.image.ref.name"] != caller.r.Tag)
+//@ func (*OCIDir).tagDelete(ctx, r) (err)
+//@   prop C06
+//@   loop 0 (i)
+//@     invariant range: -1 <= i && i < len(index.Manifests)
+//@     invariant suffix-clean: forall(k, i + 1, len(index.Manifests), index.Manifests[k].Annotations["org.opencontainers.image.ref.name"] != r.Tag)
